@@ -17,12 +17,17 @@ import (
 // pinned (library-free) reproductions of the C13 findings. Each builds the minimal state on a cache
 // branch through the client keeper and evaluates the round trip without tolerance for the finding it pins.
 
-func pinned(t *testing.T, key, what string, build func(e *env), reproduces func(v *violation) bool) {
+func pinned(t *testing.T, key, what string, build func(e *env) error, reproduces func(v *violation) bool) {
 	r := rec.For(t.Name(), "pinned: "+what)
 	c := baseChain()
 	ctx, _ := c.Ctx().CacheContext()
 	e := &env{c: c, ctx: ctx}
-	build(e)
+	if err := build(e); err != nil {
+		// the pinned state is refused by the client type's own validation: it is no longer reachable
+		r.Case(key+"/unreachable", true, func() interface{} { return fmt.Sprintf("%s -> not reachable any more: %v", what, err) })
+		r.Case(key+"/oracle", true, nil)
+		return
+	}
 	// the other listed findings are tolerated so that each pinned test follows its own root cause only
 	tol := tolerance{count: func(string, int) {}}
 	if key != keyTMIterKeys {
@@ -52,14 +57,16 @@ var pinnedTSS = kit.NewAccount([]byte("c13-tss")).Acc
 
 func TestC13_Known_EthConsensusClientType(t *testing.T) {
 	pinned(t, keyEthConsType, "one ETH client created at 0-400 (ClientKeeper.CreateClient), nothing else",
-		func(e *env) { e.create(clientPlan{Name: "eth-main", Type: tETH, H0: 400}, 0, pinnedTSS) },
+		func(e *env) error {
+			return e.tryCreate(clientPlan{Name: "eth-main", Type: tETH, H0: 400}, 0, pinnedTSS)
+		},
 		func(v *violation) bool { return v.Clause == "validate" && strings.Contains(v.Msg, ethTypeErr) })
 }
 
 func TestC13_Known_TmIterationKeysNotExported(t *testing.T) {
 	pinned(t, keyTMIterKeys, "one Tendermint client created at 0-1 and updated to 0-2",
-		func(e *env) {
-			e.create(clientPlan{Name: "tm-main", Type: tTM, H0: 1, UpdRevs: []uint64{0}, Vals: 1}, 0, pinnedTSS)
+		func(e *env) error {
+			return e.tryCreate(clientPlan{Name: "tm-main", Type: tTM, H0: 1, UpdRevs: []uint64{0}, Vals: 1}, 0, pinnedTSS)
 		},
 		func(v *violation) bool {
 			return v.Clause == "dump" && strings.Contains(v.Msg, "differs in 2 keys") && strings.Count(v.Msg, "iterateConsensusStates") == 2
@@ -68,7 +75,9 @@ func TestC13_Known_TmIterationKeysNotExported(t *testing.T) {
 
 func TestC13_Known_ZeroHeightClientExportInvalid(t *testing.T) {
 	pinned(t, keyZeroHeight, "one BSC client created at block 0 (revision 0)",
-		func(e *env) { e.create(clientPlan{Name: "bsc-main", Type: tBSC, H0: 0, Vals: 1}, 0, pinnedTSS) },
+		func(e *env) error {
+			return e.tryCreate(clientPlan{Name: "bsc-main", Type: tBSC, H0: 0, Vals: 1}, 0, pinnedTSS)
+		},
 		func(v *violation) bool {
 			return v.Clause == "validate" && strings.Contains(v.Msg, "consensus state height cannot be zero")
 		})
@@ -94,9 +103,10 @@ func toggle(e *env, name string, to clientPlan) {
 
 func TestC13_Known_ToggleLeavesOldTypeState(t *testing.T) {
 	pinned(t, keyToggleLeftover, "BSC client created at 0-400, toggled to a Tendermint client at 0-7",
-		func(e *env) {
+		func(e *env) error {
 			e.create(clientPlan{Name: "cp-chain", Type: tBSC, H0: 400, Vals: 1}, 0, pinnedTSS)
 			toggle(e, "cp-chain", clientPlan{Type: tTM, H0: 7, Vals: 1})
+			return nil
 		},
 		func(v *violation) bool {
 			return v.Clause == "validate" && strings.Contains(v.Msg, "consensus state client type bsc does not equal client state client type tendermint")
@@ -105,13 +115,14 @@ func TestC13_Known_ToggleLeavesOldTypeState(t *testing.T) {
 
 func TestC13_Known_TssConsensusStateAtZeroHeight(t *testing.T) {
 	pinned(t, keyTSSZeroHeight, "one TSS client, upgraded once (UpgradeClient with a rotated public key)",
-		func(e *env) {
+		func(e *env) error {
 			e.create(clientPlan{Name: "tss-net", Type: tTSS, Vals: 1}, 0, pinnedTSS)
 			sctx, _ := baseChain().Ctx().CacheContext()
 			se := &env{c: baseChain(), ctx: sctx}
 			se.create(clientPlan{Name: "tss-net", Type: tTSS, Vals: 2}, 0, pinnedTSS)
 			ncs, _ := se.ck().GetClientState(sctx, "tss-net")
 			kit.Must(e.ck().UpgradeClient(e.ctx, "tss-net", ncs, &tssCons), "UpgradeClient")
+			return nil
 		},
 		func(v *violation) bool {
 			return v.Clause == "validate" && strings.Contains(v.Msg, "consensus state height cannot be zero")
